@@ -21,16 +21,22 @@ EXTENDS MerkleProof, Json
 
 Trace == ndJsonDeserialize("trace.ndjson")
 N == Len(Trace)
-VARIABLES T, IT, R, n, present, sess, hist, l, seg
-\* T, R: the prover; IT = InfoTable(T) (kept so that it is computed once per prover); n: key width (0: no dictionary);
+VARIABLES R, n, present, sess, hist, l, seg
+\* The prover is (T, R).  T and IT = InfoTable(T) never change during a segment; they are kept in the TLC register N + seg
+\* (set by Reset, read as T / IT below) instead of in state variables: fingerprinting a 1000-cell table and its hashes at
+\* every step costs 0.2 s per event (measured), the register costs nothing.  n: key width (0: no dictionary);
 \* present: the keys of the abstract dictionary T denotes; sess: open cursor sessions; hist: every occurrence pruned by
 \* an earlier request of this prover (only used to name findings)
-tvars == <<T, IT, R, n, present, sess, hist, l, seg>>
+tvars == <<R, n, present, sess, hist, l, seg>>
+T  == TLCGet(N + seg).T
+IT == TLCGet(N + seg).IT
 Starts == {i \in 1..N : Trace[i].k = "Reset"}
 ASSUME \A i \in Starts : TLCSet(i, 0)
 E == Trace[l]
 Has(e, f) == f \in DOMAIN e
-Consume == l' = l + 1 /\ seg' = seg /\ TLCSet(seg, l + 1 - seg)
+\* (the table register is released with the segment's last event)
+Consume == /\ l' = l + 1 /\ seg' = seg /\ TLCSet(seg, l + 1 - seg)
+           /\ ((l = N \/ Trace[IF l = N THEN l ELSE l + 1].k = "Reset") => TLCSet(N + seg, 0))
 Reject(reason, class) == PrintT(<<"NOTE", l, reason, class>>) /\ FALSE
 
 TReset ==
@@ -41,22 +47,22 @@ TReset ==
           \* the abstract dictionary decides presence; Lookup (used per request) must agree with it on every item
           IF ~D.ok \/ \E i \in 1..Len(D.items) : LET lk == Lookup(T0, R0, E.n, D.items[i].k) IN ~(lk.ok /\ lk.found /\ lk.v = D.items[i].v)
             THEN Reject("domain:not-a-dictionary", "plain")
-          ELSE /\ T' = T0 /\ R' = R0 /\ IT' = InfoTable(T0) /\ n' = E.n
+          ELSE /\ TLCSet(N + seg, [T |-> T0, IT |-> InfoTable(T0)]) /\ R' = R0 /\ n' = E.n
                /\ present' = {BitsToStr(D.items[i].k) : i \in 1..Len(D.items)}
                /\ sess' = <<>> /\ hist' = {}
 
 \* Cursor(): a new session, empty prune set - whatever earlier sessions pruned
-TCursor == /\ E.k = "Cursor" /\ sess' = NewSession(sess, E.c) /\ UNCHANGED <<T, IT, R, n, present, hist>>
+TCursor == /\ E.k = "Cursor" /\ sess' = NewSession(sess, E.c) /\ UNCHANGED <<R, n, present, hist>>
 
 TOp == /\ E.k \in {"Ref", "Up", "Prune"}
        /\ LET o == [op |-> IF E.k = "Ref" THEN "ref" ELSE IF E.k = "Up" THEN "up" ELSE "prune", i |-> IF E.k = "Ref" THEN E.i ELSE 0] IN
           IF ~SessEnabled(T, R, sess, E.c, o) THEN Reject("domain:op-not-enabled", "plain")
           ELSE sess' = SessApply(T, R, sess, E.c, o)
-       /\ UNCHANGED <<T, IT, R, n, present, hist>>
+       /\ UNCHANGED <<R, n, present, hist>>
 
 \* CreateProof(cursor of session c) = Proof(T, R, prune set of session c)
 TCreate ==
-  /\ E.k = "Create" /\ UNCHANGED <<T, IT, R, n, present, sess>>
+  /\ E.k = "Create" /\ UNCHANGED <<R, n, present, sess>>
   /\ IF E.c \notin DOMAIN sess THEN Reject("domain:no-such-session", "plain")
      ELSE IF E.panic # "" THEN Reject("panic", "plain")
      ELSE IF E.err # "" THEN Reject("create-proof-error", "plain")
@@ -72,7 +78,7 @@ TCreate ==
 
 \* ProveKeyInHashmap(prover, root, key): its own session; present key => value + ProofOK, absent key => error
 TKey ==
-  /\ E.k = "Key" /\ UNCHANGED <<T, IT, R, n, present, sess>>
+  /\ E.k = "Key" /\ UNCHANGED <<R, n, present, sess>>
   /\ LET k  == StrToBits(E.key)
          lk == Lookup(T, R, n, k)
          isPresent == E.key \in present
@@ -100,7 +106,7 @@ TKey ==
                    ELSE hist' = hist \cup pv.psp
 
 TraceInit == /\ l \in Starts /\ seg = l
-             /\ T = <<>> /\ IT = <<>> /\ R = 0 /\ n = 0 /\ present = {} /\ sess = <<>> /\ hist = {}
+             /\ R = 0 /\ n = 0 /\ present = {} /\ sess = <<>> /\ hist = {}
 TraceNext == /\ l <= N /\ (l # seg => Trace[l].k # "Reset")
              /\ (TReset \/ TCursor \/ TOp \/ TCreate \/ TKey)
              /\ Consume
